@@ -87,7 +87,7 @@ def gen_l2t(rng, k=None):
     if not ignore:
         b["ctor"] = rng.choice(["builder", "init_with_filter"]) if "max_level" in b else rng.choice(["builder", "init", "new"])
     else:
-        b["ctor"] = rng.choice(["builder", "ignore_all"]) if k is None else ["builder", "ignore_all"][(k // len(IGNORES)) % 2]
+        b["ctor"] = rng.choice(["builder", "ignore_all", "ignore_mixed"]) if k is None else ["builder", "ignore_all", "ignore_mixed"][(k // len(IGNORES)) % 3]
     return b
 
 
